@@ -45,3 +45,31 @@ contract("C14.in_library_check", file=A, func="in_library_check", params=dict(P,
              "C14.in_library.reported_iff_not_a_loaded_library": "(len(result) > 0) == (not is_field(hed_schema.library, ',', lib))",
              "C14.in_library.code": "all_in(result, lambda x: x.code == 'SCHEMA_ATTRIBUTE_VALUE_INVALID' and x.kind == 'SCHEMA_IN_LIBRARY_INVALID')",
          })
+
+# C14 "flags seeded faults": every listed item (suggested/related tag, unit class, value class) that does not exist in its section is
+# reported - for EVERY entry, deprecated or not (only the "refers to a deprecated item" note is waived for deprecated entries)
+class_model("SchemaSections", {"tags": "Map[Str,SchemaEntry]", "unit_classes": "Map[Str,SchemaEntry]", "value_classes": "Map[Str,SchemaEntry]"})
+from pyvc.contract import EXTERNS as _EX14
+try:
+    from contracts.extern_fs import _entry_has_attribute as _eha
+    _EX14["SchemaEntry.has_attribute"] = _eha
+except ImportError:
+    pass
+SEC = "(hed_schema.tags if section_key == 'tags' else (hed_schema.unit_classes if section_key == 'unitClasses' else hed_schema.value_classes))"
+ITEMS = "(tag_entry.attributes[attribute_name] if attribute_name in tag_entry.attributes else '').split(',')"
+contract("C14.item_exists_check", file=A, func="item_exists_check",
+         params={"hed_schema": "SchemaSections", "tag_entry": "SchemaEntry", "attribute_name": "Str", "section_key": "Str"},
+         returns="List[Issue]", enc="native",
+         requires=["section_key == 'tags' or section_key == 'unitClasses' or section_key == 'valueClasses'"],
+         locals={"issues": "List[Issue]"},
+         ensures={
+             "C14.items.missing_item_reported_for_every_entry": "implies(any_in(" + ITEMS + ", lambda i: len(i) > 0 and i not in " + SEC + "),"
+                 " any_in(result, lambda x: x.kind == 'SCHEMA_GENERIC_ATTRIBUTE_VALUE_INVALID' and x.code == 'SCHEMA_ATTRIBUTE_VALUE_INVALID'))",
+             "C14.items.all_present_and_current_is_silent": "implies(all_in(" + ITEMS + ", lambda i: len(i) == 0 or (i in " + SEC + " and 'deprecatedFrom' not in " + SEC + "[i].attributes)),"
+                 " len(result) == 0)",
+         },
+         loops={0: {"invariant": [
+             "all(implies(len(split_items[k]) > 0 and split_items[k] not in " + SEC + ", any_in(issues, lambda x: x.kind == 'SCHEMA_GENERIC_ATTRIBUTE_VALUE_INVALID'"
+             " and x.code == 'SCHEMA_ATTRIBUTE_VALUE_INVALID')) for k in range(_n))",
+             "implies(all(len(split_items[k]) == 0 or (split_items[k] in " + SEC + " and 'deprecatedFrom' not in " + SEC + "[split_items[k]].attributes) for k in range(_n)), len(issues) == 0)",
+         ]}})
